@@ -99,8 +99,12 @@ impl Selector {
                 // this is just a wakeup event, ignore it
                 let mut buf = [0u8; 8];
                 // clear the eventfd, ignore the result
+                #[cfg(may_verif)]
+                crate::verif::pt("selw.read", id, 0, 0);
                 read(single_selector.evfd.as_fd(), &mut buf).ok();
                 // info!("got wakeup event in select, id={}", id);
+                #[cfg(may_verif)]
+                crate::verif::pt("selw.collect", id, 0, 0);
                 scheduler.collect_global(id);
                 continue;
             }
